@@ -51,6 +51,7 @@ func init() {
 			"each loaded index queried with every query of the phase; phase pull: ChartDownloader.ResolveChartVersion; phase resolve: Manager.Update -> internal/resolver.Resolve -> Chart.lock; " +
 			"urls alphabet (3 versions x 4 spellings of the urls field: URL, key absent, null, empty list) through load+get, pull and resolve in YAML and JSON; " +
 			"hyphen/plus alphabet (stable versions with '-' inside the build metadata, pre-releases carrying build metadata) through load+get, pull and resolve; " +
+			"zero alphabet (0.0.0 plain / v-prefixed / with build metadata, 0.0.0-rc.1, 0.0.1, 0.1.0-rc.1) through load+get and pull; " +
 			"dependency LISTS naming the same chart two (thorough: three) times via aliases with every ordered tuple of 6 ranges, each entry compared with its own independent resolution; " +
 			"histories on ONE path: load, then either modify the returned object with each public mutator or replace the file (every ordered pair of different files, mtime restored/newer/older), then load again - the second result is compared with an independent reading of the bytes then in the file; " +
 			"phase registry: every descending tag list x every query. distinct = (entry point, alphabet, spelling, entry list); every list is non-trivial (the empty list is the only degenerate one); " +
@@ -77,6 +78,7 @@ func init() {
 			"resolve-multi:locked", "resolve-multi:different-versions", "resolve-multi:error-later-only",
 			"get:stable-hyphen-build", "get:stable-hyphen-build-only", "get:prerelease-with-build-passed-over",
 			"pull:stable-hyphen-build", "pull:stable-hyphen-build-only",
+			"get:stable-zero:0.0.0", "get:stable-zero:v0.0.0", "get:stable-zero:0.0.0+b1", "pull:stable-zero:0.0.0", "pull:stable-zero:v0.0.0", "pull:stable-zero:0.0.0+b1",
 			"history:alias:drop-first", "history:alias:delete-chart", "history:alias:mustadd-newer", "history:alias:mustadd-older", "history:alias:merge-newer",
 			"history:alias:edit-version", "history:alias:sort-ascending", "history:alias:clear-urls",
 			"history:rewrite:same-size:same-mtime", "history:rewrite:same-size:newer-mtime", "history:rewrite:same-size:older-mtime", "history:rewrite:diff-size:same-mtime",
@@ -101,6 +103,8 @@ var alphabets = map[string][]string{
 		"1.0.0~emptyurls", "1.2.0~emptyurls", "2.0.0~emptyurls"},
 	// '-' and '+' in the "wrong" part: stable versions whose build metadata holds a
 	// hyphen, pre-releases that carry build metadata (with and without a hyphen)
+	// the lowest version there is: 0.0.0 is a stable release, 0.0.0-rc.1 is not
+	"zero": {"0.0.0", "v0.0.0", "0.0.0+b1", "0.0.0-rc.1", "0.0.1", "0.1.0-rc.1"},
 	"hyph": {"1.2.0", "1.3.0", "1.3.0+b7", "1.3.0+git-4f2a", "0.8.0+build-7", "1.4.0-rc.1", "1.4.0-rc.1+b7", "1.4.0-rc.1+git-4f2a"},
 	// reduced alphabet for dependency LISTS (the same chart several times, via aliases)
 	"multi": {"1.0.0", "1.2.0", "1.10.0", "2.0.0", "2.0.0-rc.1", "nourls"},
@@ -117,6 +121,7 @@ var queries = map[string][]string{
 	// urls alphabet: Get / pull queries and dependency ranges
 	"urls":         {"*", "", "1.2.0", "^1.0.0", ">1.0.0 <2.0.0", "9.9.9"},
 	"resolve-urls": {"*", "1.2.0", "^1.0.0", ">1.0.0 <2.0.0", "~1.2", "9.9.9"},
+	"zero":         {"", "*", ">=0.0.0-0", "0.0.0", ">0.0.0", "^0.0.0", "9.9.9"},
 	"hyph":         {"", "*", "1.3.0", "1.3.0+git-4f2a", "^1.0.0", ">=1.0.0-0", "9.9.9"},
 	"resolve-hyph": {"*", "1.3.0", "^1.0.0", ">=1.0.0-0"},
 	// every ordered tuple of these is a dependency list on the same chart
@@ -1111,6 +1116,9 @@ func enumLists(toks []string, maxLen int, f func(list []string)) {
 // only stable entry) and that pre-releases with build metadata were passed over.
 func noteHyphenFloors(c *core.Ctx, entry string, cands []cand, acc []int) {
 	best := cands[acc[0]].Version
+	if v, ok := parseSV(best); ok && v.stable() && v.core == [3]uint64{0, 0, 0} {
+		c.Floor(entry + ":stable-zero:" + best) // the highest stable version is 0.0.0 itself
+	}
 	if i := strings.IndexByte(best, '+'); i >= 0 && strings.Contains(best[i:], "-") && len(acc) == 1 {
 		c.Floor(entry + ":stable-hyphen-build")
 		stable := 0
@@ -1149,6 +1157,7 @@ func run(c *core.Ctx) {
 	if c.Thorough() {
 		b = bounds{main: 5, prec: 5, tags: 6, pull: 4, resolve: 4, urls: 4, hyph: 5, hyphVia: 4, alias: 4, rw1: 3, rw2: 2, multi2: 3, multi3: 2}
 	}
+	c.Bound("zero alphabet (6 tokens), load+get YAML and JSON / pull: max entries per chart", fmt.Sprintf("%d / %d", b.hyph, b.hyphVia))
 	c.Bound("hyphen/plus alphabet (8 tokens), load+get YAML and JSON: max entries per chart; via pull / resolve", fmt.Sprintf("%d; %d", b.hyph, b.hyphVia))
 	c.Bound("aliasing histories (load, mutate returned object with each of 8 public mutators, load again), main alphabet, YAML and JSON: max entries", fmt.Sprint(b.alias))
 	c.Bound("rewrite histories (load, replace file, load again) x 3 mtime modes, hist alphabet (8 tokens): max entries first file / second file", fmt.Sprintf("%d/%d", b.rw1, b.rw2))
@@ -1175,7 +1184,7 @@ func run(c *core.Ctx) {
 	}
 
 	// Phase 1: LoadIndexFile + Get
-	for _, alpha := range []string{"main", "prec", "urls", "hyph"} {
+	for _, alpha := range []string{"main", "prec", "urls", "hyph", "zero"} {
 		if !only("load") && !only("get") {
 			break
 		}
@@ -1185,7 +1194,7 @@ func run(c *core.Ctx) {
 			maxLen = b.prec
 		case "urls":
 			maxLen = b.urls
-		case "hyph":
+		case "hyph", "zero":
 			maxLen = b.hyph
 		}
 		enumLists(alphabets[alpha], maxLen, func(list []string) {
@@ -1268,7 +1277,7 @@ func run(c *core.Ctx) {
 		queries   []string
 		jsonMax   int // the JSON spelling is run up to this length (same decoder behind both spellings)
 	}
-	for _, v := range []via{{"main", b.pull, []string{"yaml"}, queries["main"], 0}, {"urls", b.urls, []string{"yaml", "json"}, queries["urls"], 3}, {"hyph", b.hyphVia, []string{"yaml"}, queries["hyph"], 0}} {
+	for _, v := range []via{{"main", b.pull, []string{"yaml"}, queries["main"], 0}, {"urls", b.urls, []string{"yaml", "json"}, queries["urls"], 3}, {"hyph", b.hyphVia, []string{"yaml"}, queries["hyph"], 0}, {"zero", b.hyphVia, []string{"yaml"}, queries["zero"], 0}} {
 		if !only("pull") {
 			break
 		}
